@@ -857,3 +857,259 @@ Section BeforePage.
       + rewrite map_length, descs_of_length. exact Hk.
   Qed.
 End BeforePage.
+
+(* ---------- chained search-after ---------- *)
+
+Lemma StronglySorted_filter {A} (R : A -> A -> Prop) f l : StronglySorted R l -> StronglySorted R (filter f l).
+Proof.
+  induction 1 as [|x l Hs IH Hall]; [constructor|]. cbn [filter]. destruct (f x); [|exact IH].
+  constructor; [exact IH|]. apply Forall_forall. intros y Hy. apply filter_In in Hy.
+  rewrite Forall_forall in Hall. apply Hall, Hy.
+Qed.
+
+Lemma Permutation_filter' {A} (f : A -> bool) l l' : Permutation l l' -> Permutation (filter f l) (filter f l').
+Proof.
+  induction 1 as [|x l l' P IH|x y l|l l' l'' P1 IH1 P2 IH2]; cbn [filter].
+  - constructor.
+  - destruct (f x); [constructor; exact IH | exact IH].
+  - destruct (f x), (f y); try apply Permutation_refl. apply perm_swap.
+  - eapply Permutation_trans; eassumption.
+Qed.
+
+Section Chain.
+  Variable descs : list bool.
+  Notation cmp := (compare descs).
+  Let L : lawful cmp := lawful_compare descs.
+
+  Lemma isort_filter f P : nodup_nums P -> isort cmp (filter f P) = filter f (isort cmp P).
+  Proof.
+    intro N. apply (sorted_perm_unique cmp L).
+    - apply (isort_sorted cmp L).
+    - apply StronglySorted_filter, (isort_sorted cmp L).
+    - apply Permutation_trans with (filter f P); [apply isort_perm|].
+      apply Permutation_filter', Permutation_sym, isort_perm.
+    - apply (separates_perm cmp (filter f P)); [apply Permutation_sym, isort_perm|].
+      apply nodup_separates, nodup_nums_filter, N.
+  Qed.
+
+  (* the sort keys alone distinguish the hits *)
+  Definition keys_distinct (P : list hit) : Prop :=
+    forall a b, In a P -> In b P -> cmp_keys descs (h_sort a) (h_sort b) = 0 -> a = b.
+
+  Lemma compare_keys a b : cmp_keys descs (h_sort a) (h_sort b) <> 0 -> cmp a b = cmp_keys descs (h_sort a) (h_sort b).
+  Proof. intro H. unfold compare. destruct (cmp_keys descs (h_sort a) (h_sort b) =? 0) eqn:E; [lia | reflexivity]. Qed.
+
+  (* in a ranking whose keys are distinct, the hits strictly after the key of x are the suffix behind x *)
+  Lemma after_suffix pre x suf : StronglySorted (le cmp) (pre ++ x :: suf) -> NoDup (pre ++ x :: suf) ->
+    keys_distinct (pre ++ x :: suf) ->
+    filter (after_key descs (h_sort x)) (pre ++ x :: suf) = suf.
+  Proof.
+    intros Hs ND KD. rewrite filter_app. cbn [filter].
+    destruct (sorted_app_inv cmp pre (x :: suf) Hs) as (_ & Hs2 & H12).
+    inversion Hs2 as [|? ? Hs3 Hx]; subst. rewrite Forall_forall in Hx.
+    assert (Hkx : cmp_keys descs (h_sort x) (h_sort x) = 0) by apply (law_refl _ (lawful_cmp_keys descs)).
+    unfold after_key at 2. rewrite Hkx. cbn [Z.ltb Z.compare].
+    assert (Hxin : In x (pre ++ x :: suf)) by (apply in_or_app; right; left; reflexivity).
+    assert (E1 : filter (after_key descs (h_sort x)) pre = []).
+    { rewrite (filter_ext_in _ (fun _ => false)); [clear; induction pre as [|p0 pre IHp]; [reflexivity | exact IHp]|].
+      intros d Hd. unfold after_key.
+      assert (Hdin : In d (pre ++ x :: suf)) by (apply in_or_app; left; exact Hd).
+      assert (Nk : cmp_keys descs (h_sort d) (h_sort x) <> 0).
+      { intro E. pose proof (KD d x Hdin Hxin E). subst d.
+        apply NoDup_remove_2 in ND. apply ND, in_or_app. left. exact Hd. }
+      pose proof (H12 d x Hd (or_introl eq_refl)) as Hle. unfold le in Hle. rewrite (compare_keys d x Nk) in Hle. lia. }
+    assert (E2 : filter (after_key descs (h_sort x)) suf = suf).
+    { apply filter_true. intros d Hd. unfold after_key.
+      assert (Hdin : In d (pre ++ x :: suf)) by (apply in_or_app; right; right; exact Hd).
+      assert (Nk : cmp_keys descs (h_sort x) (h_sort d) <> 0).
+      { intro E. pose proof (KD x d Hxin Hdin E). subst d.
+        apply NoDup_remove_2 in ND. apply ND, in_or_app. right. exact Hd. }
+      pose proof (Hx d Hd) as Hle. unfold le in Hle. rewrite (compare_keys x d Nk) in Hle.
+      pose proof (law_antisym _ (lawful_cmp_keys descs) (h_sort x) (h_sort d)). lia. }
+    rewrite E1, E2. reflexivity.
+  Qed.
+End Chain.
+
+Section Covers.
+  Context {B : Type}.
+  Variable consume : hit -> B -> B.
+  Variables (n : Z) (order : list sortspec) (aggf : list Z) (b0 : B) (hits : list rawhit).
+  Hypothesis Hn : 0 < n.
+  Notation descs := (descs_of order).
+  Notation prepared := (prepare_all (order_fields order ++ aggf) order 0 hits).
+  Hypothesis KD : keys_distinct descs prepared.
+
+  Let Rk := ranking order aggf hits.
+
+  Lemma Rk_sorted : StronglySorted (le (compare descs)) Rk.
+  Proof. apply (isort_sorted _ (lawful_compare descs)). Qed.
+
+  Lemma Rk_nodup : NoDup Rk.
+  Proof.
+    apply (nodup_nums_nodup). apply (nodup_nums_perm prepared); [apply Permutation_sym, isort_perm | apply prepare_all_nodup].
+  Qed.
+
+  Lemma Rk_keys : keys_distinct descs Rk.
+  Proof. intros a b Ha Hb. apply KD; apply (isort_in (compare descs)); assumption. Qed.
+
+  Lemma Rk_in_prepared x : In x Rk -> In x prepared.
+  Proof. apply (isort_in (compare descs)). Qed.
+
+  (* the request that follows the prefix pre of the ranking *)
+  Definition next_paging (pre : list hit) : paging :=
+    match pre with
+    | [] => PFrom 0
+    | _ => PAfter (h_sort (last pre dummy_hit))
+    end.
+
+  Lemma page_after_prefix pre suf : Rk = pre ++ suf ->
+    rmap fst (topn_search consume n order (next_paging pre) aggf b0 hits) = Ok (firstn (Z.to_nat n) suf).
+  Proof.
+    intro E. destruct pre as [|p0 pre'] eqn:Ep.
+    - cbn [next_paging]. rewrite topn_slice_all by lia. cbn [Z.to_nat skipn]. fold Rk. rewrite E. reflexivity.
+    - rewrite <- Ep in *. assert (Np : pre <> []) by (rewrite Ep; discriminate).
+      unfold next_paging. rewrite Ep. rewrite <- Ep.
+      destruct (@exists_last _ pre Np) as (pre0 & x & Epx). rewrite Epx, last_last.
+      assert (Hx : In x Rk) by (rewrite E, Epx; apply in_or_app; left; apply in_or_app; right; left; reflexivity).
+      rewrite after_page_all; [|lia|].
+      + f_equal. f_equal. rewrite (isort_filter descs) by apply prepare_all_nodup.
+        change (isort (compare descs) prepared) with Rk.
+        assert (E' : Rk = pre0 ++ x :: suf) by (rewrite E, Epx, <- app_assoc; reflexivity).
+        rewrite E'. apply after_suffix; rewrite <- E'; [apply Rk_sorted | apply Rk_nodup | apply Rk_keys].
+      + rewrite (prepare_all_sort_length _ _ _ _ x (Rk_in_prepared x Hx)). lia.
+  Qed.
+
+  Lemma chain_covers fuel : forall pre suf, Rk = pre ++ suf -> (length suf < fuel)%nat ->
+    after_chain consume fuel n order aggf b0 hits (next_paging pre) = Ok suf.
+  Proof.
+    induction fuel as [|f IH]; intros pre suf E Hf; [lia|].
+    cbn [after_chain]. rewrite (page_after_prefix pre suf E). cbn [rbind].
+    remember (firstn (Z.to_nat n) suf) as page eqn:Epage.
+    destruct page as [|p1 page'].
+    - destruct suf as [|y suf']; [reflexivity|]. destruct (Z.to_nat n) eqn:En; [lia | discriminate Epage].
+    - assert (Es2 : suf = (p1 :: page') ++ skipn (Z.to_nat n) suf) by (rewrite Epage; symmetry; apply firstn_skipn).
+      assert (Hnext : next_paging (pre ++ p1 :: page') = PAfter (h_sort (last (p1 :: page') dummy_hit))).
+      { unfold next_paging. destruct (pre ++ p1 :: page') as [|z zs] eqn:Ez.
+        - apply app_eq_nil in Ez. destruct Ez as [_ Ez]. discriminate.
+        - rewrite <- Ez. f_equal. f_equal.
+          destruct (@exists_last _ (p1 :: page') ltac:(discriminate)) as (pg0 & lz & Elz).
+          rewrite Elz, app_assoc, !last_last. reflexivity. }
+      rewrite <- Hnext.
+      rewrite (IH (pre ++ p1 :: page') (skipn (Z.to_nat n) suf)).
+      + cbn [rbind]. rewrite <- Es2. reflexivity.
+      + rewrite <- app_assoc, <- Es2. exact E.
+      + rewrite skipn_length. pose proof (f_equal (@length hit) Es2) as Hl.
+        rewrite app_length, skipn_length in Hl. cbn [length] in Hl. lia.
+  Qed.
+
+  (* paging_covers: with any page size n > 0, under an order whose keys distinguish all matches,
+     chaining search-after from the first page until an empty page visits every match exactly
+     once, in ranking order *)
+  Theorem paging_covers_after :
+    after_chain consume (Datatypes.S (length hits)) n order aggf b0 hits (PFrom 0) = Ok (ranking order aggf hits).
+  Proof.
+    change (PFrom 0) with (next_paging []). apply chain_covers; [reflexivity|].
+    unfold ranking. rewrite isort_length, prepare_all_length. lia.
+  Qed.
+End Covers.
+
+(* ---------- search-before in forward terms ---------- *)
+
+Lemma StronglySorted_snoc {A} (R : A -> A -> Prop) l x : StronglySorted R l -> (forall y, In y l -> R y x) ->
+  StronglySorted R (l ++ [x]).
+Proof.
+  induction 1 as [|h t Hs IH Hall]; intro H; cbn [app]; [constructor; constructor|].
+  constructor.
+  - apply IH. intros y Hy. apply H. right. exact Hy.
+  - apply Forall_forall. intros y Hy. apply in_app_or in Hy. destruct Hy as [Hy|[<-|[]]].
+    + rewrite Forall_forall in Hall. apply Hall, Hy.
+    + apply H. left. reflexivity.
+Qed.
+
+Lemma StronglySorted_rev {A} (R : A -> A -> Prop) l : StronglySorted R l -> StronglySorted (fun a b => R b a) (rev l).
+Proof.
+  induction 1 as [|h t Hs IH Hall]; cbn [rev]; [constructor|].
+  apply StronglySorted_snoc; [exact IH|]. intros y Hy. apply in_rev in Hy.
+  rewrite Forall_forall in Hall. apply Hall, Hy.
+Qed.
+
+Lemma StronglySorted_impl_in {A} (R R' : A -> A -> Prop) l : StronglySorted R l ->
+  (forall a b, In a l -> In b l -> R a b -> R' a b) -> StronglySorted R' l.
+Proof.
+  induction 1 as [|h t Hs IH Hall]; intro H; [constructor|]. constructor.
+  - apply IH. intros a b Ha Hb. apply H; right; assumption.
+  - rewrite Forall_forall in *. intros y Hy. apply H; [left; reflexivity | right; exact Hy | apply Hall, Hy].
+Qed.
+
+Section Reverse.
+  Variable descs : list bool.
+
+  (* under keys that distinguish the hits, the ranking by the reversed order is the reversed ranking *)
+  Lemma isort_reversed P : nodup_nums P -> keys_distinct descs P ->
+    isort (compare (map negb descs)) P = rev (isort (compare descs) P).
+  Proof.
+    intros N KD. pose proof (lawful_compare descs) as L. pose proof (lawful_compare (map negb descs)) as L'.
+    apply (sorted_perm_unique _ L').
+    - apply (isort_sorted _ L').
+    - apply (StronglySorted_impl_in (fun a b => le (compare descs) b a)).
+      + apply StronglySorted_rev, (isort_sorted _ L).
+      + intros a b Ha Hb Hle. unfold le in *.
+        apply in_rev in Ha. apply in_rev in Hb. apply (proj1 (isort_in (compare descs) P a)) in Ha. apply (proj1 (isort_in (compare descs) P b)) in Hb.
+        destruct (Z.eq_dec (cmp_keys descs (h_sort a) (h_sort b)) 0) as [E|NE].
+        * pose proof (KD a b Ha Hb E). subst b. rewrite (law_refl _ L'). lia.
+        * assert (NE' : cmp_keys (map negb descs) (h_sort a) (h_sort b) <> 0) by (rewrite cmp_keys_negb; lia).
+          rewrite (compare_keys (map negb descs) a b NE'), cmp_keys_negb.
+          assert (NE2 : cmp_keys descs (h_sort b) (h_sort a) <> 0).
+          { pose proof (law_antisym _ (lawful_cmp_keys descs) (h_sort a) (h_sort b)). lia. }
+          rewrite (compare_keys descs b a NE2) in Hle.
+          pose proof (law_antisym _ (lawful_cmp_keys descs) (h_sort a) (h_sort b)). lia.
+    - apply Permutation_trans with P; [apply isort_perm|].
+      apply Permutation_trans with (isort (compare descs) P); [apply Permutation_sym, isort_perm | apply Permutation_rev].
+    - apply (separates_perm _ P); [apply Permutation_sym, isort_perm | apply nodup_separates; exact N].
+  Qed.
+End Reverse.
+
+(* hits strictly before a sort key *)
+Definition before_key (descs : list bool) (key : list bytes) (d : hit) : bool := cmp_keys descs (h_sort d) key <? 0.
+
+Section BeforeFull.
+  Context {B : Type}.
+  Variable consume : hit -> B -> B.
+
+  (* before_page: under an order whose keys distinguish the matches, Before(key) returns the
+     LAST n hits of the forward ranking among those strictly before `key`, in forward order *)
+  Theorem before_page_full n order key aggf b0 hits : 0 <= n -> (length order <= length key)%nat ->
+    keys_distinct (descs_of order) (prepare_all (order_fields order ++ aggf) order 0 hits) ->
+    rmap fst (topn_search consume n order (PBefore key) aggf b0 hits) =
+    Ok (lastn (Z.to_nat n) (filter (before_key (descs_of order) key) (ranking order aggf hits))).
+  Proof.
+    intros Hn Hk KD. rewrite before_page_all by assumption. f_equal.
+    set (P := prepare_all (order_fields order ++ aggf) order 0 hits) in *.
+    set (bf := fun d => cmp_keys (descs_of order) (h_sort d) key <? 0).
+    assert (N : nodup_nums P) by apply prepare_all_nodup.
+    rewrite (isort_reversed (descs_of order) (filter bf P)).
+    - rewrite (isort_filter (descs_of order) bf P N). fold (ranking order aggf hits).
+      unfold lastn, before_key. fold bf. rewrite firstn_rev, rev_involutive. reflexivity.
+    - apply nodup_nums_filter, N.
+    - intros a b Ha Hb. apply KD; [apply filter_In in Ha; apply Ha | apply filter_In in Hb; apply Hb].
+  Qed.
+End BeforeFull.
+
+(* twelve hits with a heavily tied first key and a unique second key: a distinguishing order *)
+Definition ex12u : list rawhit :=
+  map (fun i => {| r_doc := 100 + i; r_score := 0; r_dv := []; r_tab := [Some [ (i * 7) mod 5 ]; Some [ i ]] |})
+      [0;1;2;3;4;5;6;7;8;9;10;11].
+Definition ex_order2 : list sortspec :=
+  [ {| s_src := TSTab 0; s_desc := false; s_first := false |}; {| s_src := TSTab 1; s_desc := true; s_first := false |} ].
+
+Fixpoint keys_distinctb (descs : list bool) (l : list hit) : bool :=
+  match l with
+  | [] => true
+  | a :: t => forallb (fun b => negb (cmp_keys descs (h_sort a) (h_sort b) =? 0)) t && keys_distinctb descs t
+  end.
+
+Example paging_covers_ex :
+  rmap (map h_doc) (after_chain (fun _ (b : unit) => b) 13 5 ex_order2 [] tt ex12u (PFrom 0))
+    = Ok [110; 105; 100; 108; 103; 111; 106; 101; 109; 104; 107; 102] /\
+  keys_distinctb (descs_of ex_order2) (prepare_all (order_fields ex_order2) ex_order2 0 ex12u) = true.
+Proof. vm_compute. split; reflexivity. Qed.
